@@ -1,8 +1,10 @@
 (* C09 — the property as an executable checker over what was OBSERVED after
    every event of a history (never over the model's state):
 
-   All clauses refer to the limits CURRENTLY configured: a schema update (ESchema) takes effect
-   with the first observation after it — there is no grace period until the next server answer.
+   All clauses refer to the schema CURRENTLY configured (type, strategy, limits): a schema update
+   (ESchema, EStrategy) takes effect with the first observation after it — there is no grace period
+   until the next server answer.  While the schema name is deleted (EDelete) a request gets the
+   default (exempt) flow control, which is what "unknown schema" means; nothing else is required then.
 
    (bound)    the limiter a request meets is of the schema's type and is sized within
               the configured global limit: max-in-flight size <= global max (and no more
@@ -112,8 +114,8 @@ Definition zmax (a b : Z) := if a <? b then b else a.
 (* the quota an answer of the schema's type grants: the answered value within [0, global] *)
 Definition granted (c : config) (d : detail) : option lim :=
   match ck c, d with
-  | KMI, DMI m => Some (LMI (clamp m 0 (g1 c)))
-  | KTB, DTB q b => Some (LTB (clamp q 0 (g1 c)) (clamp b 0 (g2 c)))
+  | KMI, DMI m | KMI, DBoth m _ _ => Some (LMI (clamp m 0 (g1 c)))
+  | KTB, DTB q b | KTB, DBoth _ q b => Some (LTB (clamp q 0 (g1 c)) (clamp b 0 (g2 c)))
   | _, _ => None
   end.
 
@@ -150,11 +152,11 @@ Definition failing_ok (c : config) (maxrt : Z) (prev : obs) (e : ev) (o : obs) :
   | _ => true
   end.
 
-Definition recovery_ok (c : config) (str : strategy) (maxrt : Z) (prev : obs) (e : ev) (o : obs) : bool :=
+Definition recovery_ok (p : bool) (c : config) (str : strategy) (maxrt : Z) (prev : obs) (e : ev) (o : obs) : bool :=
   if o_evp o then true else
   match e with
   | EQuota it =>
-      if global_strategy str && negb (strategy_eqb (istr it) SCount) then
+      if p && global_strategy str && negb (strategy_eqb (istr it) SCount) then
         match granted c (idet it) with
         | Some l => inner_is o WEmpty && rlim_is o l
         | None => true
@@ -177,32 +179,40 @@ Definition recovery_ok (c : config) (str : strategy) (maxrt : Z) (prev : obs) (e
   end.
 
 (* clause layout: bound, fallback, inforce, failing, recovery, nopanic *)
+(* the schema name is deleted: the request meets the default flow control *)
+Definition absent_ok (o : obs) : bool := o_evp o || sel_eqb (o_sel o) SelDefault || sel_eqb (o_sel o) SelPanic.
+
 Definition obs_ok (st : static) (c : config) (str : strategy) (o : obs) : list bool :=
   [bound_ok c o; fallback_ok st c str o; inforce_ok st str o; true; true; nopanic_ok o].
 
-(* c, str: configuration and strategy before the event; c', str': after it *)
-Definition step_ok (st : static) (c c' : config) (str str' : strategy) (maxrt : Z) (prev : obs) (e : ev) (o : obs)
-  : list bool :=
-  [bound_ok c' o; fallback_ok st c' str' o; inforce_ok st str' o;
-   failing_ok c maxrt prev e o; recovery_ok c str maxrt prev e o; nopanic_ok o].
+(* p, c, str: presence, configuration and strategy before the event; p', c', str': after it *)
+Definition step_ok (st : static) (p p' : bool) (c c' : config) (str str' : strategy) (maxrt : Z)
+                   (prev : obs) (e : ev) (o : obs) : list bool :=
+  [if p' then bound_ok c' o else absent_ok o;
+   if p' then fallback_ok st c' str' o else true;
+   if p' then inforce_ok st str' o else true;
+   failing_ok c maxrt prev e o; recovery_ok p c str maxrt prev e o; nopanic_ok o].
 
 Definition and_lists (a b : list bool) : list bool := map (fun p => (fst p && snd p)%bool) (combine a b).
 Definition all_true : list bool := [true; true; true; true; true; true].
 
-Definition next_str (str : strategy) (e : ev) : strategy := match e with EStrategy x => x | _ => str end.
+Definition next_str (str : strategy) (e : ev) : strategy :=
+  match e with EStrategy x | ESchema _ x _ _ _ _ => x | _ => str end.
+Definition next_present (p : bool) (e : ev) : bool :=
+  match e with EStrategy _ | ESchema _ _ _ _ _ _ => true | EDelete => false | _ => p end.
 Definition next_rt (maxrt : Z) (e : ev) : Z := match e with ECount _ rt => zmax maxrt rt | _ => maxrt end.
 Definition next_cfg (c : config) (e : ev) : config :=
-  match e with ESchema a b g h => {| ck := ck c; l1 := a; l2 := b; g1 := g; g2 := h |} | _ => c end.
+  match e with ESchema k _ a b g h => {| ck := k; l1 := a; l2 := b; g1 := g; g2 := h |} | _ => c end.
 
-Fixpoint hist_ok (st : static) (c : config) (str : strategy) (maxrt : Z) (prev : obs) (tr : list (ev * obs))
+Fixpoint hist_ok (st : static) (p : bool) (c : config) (str : strategy) (maxrt : Z) (prev : obs) (tr : list (ev * obs))
   : list bool :=
   match tr with
   | [] => all_true
   | (e, o) :: r =>
-      and_lists (step_ok st c (next_cfg c e) str (next_str str e) maxrt prev e o)
-                (hist_ok st (next_cfg c e) (next_str str e) (next_rt maxrt e) o r)
+      and_lists (step_ok st p (next_present p e) c (next_cfg c e) str (next_str str e) maxrt prev e o)
+                (hist_ok st (next_present p e) (next_cfg c e) (next_str str e) (next_rt maxrt e) o r)
   end.
 
 (* a whole recorded case: the observation right after the schema was created, then the trace *)
 Definition case_ok (st : static) (str0 : strategy) (o0 : obs) (tr : list (ev * obs)) : list bool :=
-  and_lists (obs_ok st (cfg st) str0 o0) (hist_ok st (cfg st) str0 0 o0 tr).
+  and_lists (obs_ok st (cfg st) str0 o0) (hist_ok st true (cfg st) str0 0 o0 tr).
